@@ -1,2 +1,72 @@
-(* Property theorems for C12 / C13 (statements only; proofs in Proofs*.v). *)
-From VP Require Import Base.Tactics Window.Model Window.Run.
+(* Property theorems for C12 / C13.  Statements only; the proofs are in
+   ProofsC12.v / ProofsC13.v.  Every theorem is about [run] / [step] of Window/Run.v,
+   i.e. the very definitions the correspondence check evaluates against the Rust code. *)
+From Coq Require Import Sorted.
+From VP Require Import Base.Tactics Window.Model Window.Run Window.Spec Window.ProofsC12.
+Open Scope Z_scope.
+
+(* ------------------------------------------------------------------ C12 *)
+Definition closing_kind (k : kind) : Prop :=
+  match k with KTumbling _ | KCount _ | KSession _ => True | _ => False end.
+
+(* Every event that reached a tumbling / count / session window is in exactly one closed
+   window or still buffered, in arrival order, nothing twice -- for every op sequence
+   (arrivals in any timestamp order, watermark advances, expiry checks, flushes), every
+   size / duration / gap. *)
+Theorem C12_partition : forall k ops outs s,
+  closing_kind k -> run (init k) ops = (outs, s) ->
+  concat (all_windows outs) ++ buffered s = arrivals ops.
+Proof.
+  intros k ops outs s Hk Hr.
+  assert (Hc : closing_state (init k)) by (destruct k; try contradiction; exact I).
+  pose proof (run_partition _ _ _ _ Hc Hr) as H.
+  destruct k; try contradiction; exact H.
+Qed.
+
+(* A count window closes (on an arrival) with exactly its size, and never holds that many. *)
+Theorem C12_count_exact : forall n ops outs s,
+  (1 <= n)%nat -> run (init (KCount n)) ops = (outs, s) ->
+  Forall (fun l => length l = n) (add_windows ops outs) /\ (length (buffered s) < n)%nat.
+Proof.
+  intros n ops outs s Hn Hr. apply (count_run ops (c_new n)); [cbn; lia | exact Hr].
+Qed.
+
+(* In-order (time-ordered) op sequences: every window a tumbling window of duration d closes,
+   by arrival, watermark or flush, and what it still holds, contains only events earlier
+   than its first event + d. *)
+Theorem C12_tumbling_span : forall d ops outs s,
+  1 <= d -> time_ordered ops -> run (init (KTumbling d)) ops = (outs, s) ->
+  Forall (span_ok d) (all_windows outs ++ [buffered s]).
+Proof.
+  intros d ops outs s Hd Ho Hr. apply (tumbling_run d ops (t_new d) None); try assumption.
+  unfold t_inv. cbn. split; [reflexivity|]. split; intros; discriminate.
+Qed.
+
+(* In-order arrivals: consecutive events of every session a session window of gap g closes
+   (by arrival, watermark, expiry or flush), and of what it still holds, are at most g apart. *)
+Theorem C12_session_gap : forall g ops outs s,
+  0 <= g -> in_order (arrivals ops) -> run (init (KSession g)) ops = (outs, s) ->
+  Forall (gaps_ok g) (all_windows outs ++ [buffered s]).
+Proof.
+  intros g ops outs s Hg Ho Hr. apply (session_run g ops (s_new g)); try assumption.
+  unfold s_inv. cbn. split; [reflexivity|]. split; [exact I|]. split; [reflexivity|].
+  intros b x E. destruct b; discriminate.
+Qed.
+
+(* The hypotheses are satisfiable by non-trivial inputs, and the conclusions are not vacuous. *)
+Example C12_example_ops : list op :=
+  [Add (mkEv 0 0 (-1)); Add (mkEv 1 2 (-1)); Add (mkEv 2 2 (-1)); Add (mkEv 3 3 (-1)); Wm 7;
+   Add (mkEv 4 7 (-1)); Add (mkEv 5 9 (-1)); Add (mkEv 6 12 (-1)); Flush; Add (mkEv 7 12 (-1))].
+Example C12_example_ordered : time_ordered C12_example_ops /\ in_order (arrivals C12_example_ops).
+Proof.
+  split; [cbn; repeat split; lia|].
+  cbn. repeat (constructor; [|repeat (constructor; [cbn; lia|]); constructor]). constructor.
+Qed.
+Example C12_example_windows :
+  all_windows (fst (run (init (KTumbling 3)) C12_example_ops))
+  = [[mkEv 0 0 (-1); mkEv 1 2 (-1); mkEv 2 2 (-1)]; [mkEv 3 3 (-1)]; [mkEv 4 7 (-1); mkEv 5 9 (-1)]; [mkEv 6 12 (-1)]]
+  /\ all_windows (fst (run (init (KSession 2)) C12_example_ops))
+  = [[mkEv 0 0 (-1); mkEv 1 2 (-1); mkEv 2 2 (-1); mkEv 3 3 (-1)]; [mkEv 4 7 (-1); mkEv 5 9 (-1)]; [mkEv 6 12 (-1)]]
+  /\ add_windows C12_example_ops (fst (run (init (KCount 3)) C12_example_ops))
+  = [[mkEv 0 0 (-1); mkEv 1 2 (-1); mkEv 2 2 (-1)]; [mkEv 3 3 (-1); mkEv 4 7 (-1); mkEv 5 9 (-1)]].
+Proof. vm_compute. repeat split. Qed.
